@@ -13,6 +13,10 @@ def is_function_scope(scope):
     return isinstance(scope, ScopeFn) and scope.is_fn
 
 
+def is_class_scope(scope):
+    return type(scope) is ScopeFn and not scope.is_fn
+
+
 def is_inside_function_scope(scope):
     "True if any enclosing scope (including this one) is a function scope."
     cur = scope
@@ -51,7 +55,10 @@ class ResolveOuterVars(ast.NodeTransformer):
         while undefined and scope.parent:
             scope = scope.parent
             has = set()
-            if isinstance(scope, ScopeFn):
+            if is_class_scope(scope):
+                # as in Python, class variables are invisible in nested scopes
+                pass
+            elif isinstance(scope, ScopeFn):
                 has = scope.defined
             elif isinstance(scope, ScopeLet):
                 has = set(scope.bindings.keys())
@@ -97,6 +104,8 @@ class NodeRef:
     def __init__(self, node, index=None):
         self.node = node
         self.index = index
+        self.inherited = False
+        "bool: `True` once the reference has been passed up from a nested scope"
         self._accessor = NodeRef.ACCESSOR[type(self.node)]
 
     @property
@@ -322,8 +331,12 @@ class ScopeFn(ScopeBase):
     def __exit__(self, *args):
         self.defined.difference_update(self.nonlocal_vars.keys())
         for node in self.seen:
-            if node.name not in self.defined:
+            if node.name not in self.defined or (
+                # a class variable doesn't capture references in nested scopes
+                node.inherited and is_class_scope(self)
+            ):
                 # pass unbound/nonlocal names up to parent scope
+                node.inherited = True
                 self.parent.access(node)
         return super().__exit__(*args)
 
@@ -355,7 +368,9 @@ class ScopeFn(ScopeBase):
         if root == "nonlocal":
             # toss all nonlocal names up to parent scope
             for i in range(len(node.names)):
-                self.parent.access(node, i)
+                ref = NodeRef(node, i)
+                ref.inherited = True
+                self.parent.access(ref)
 
 
 class ScopeGen(ScopeFn):
